@@ -43,9 +43,9 @@ def run(tier, seed, vh, only_paths=None, mode=None):
         g, d = tlc_stats(out)
         res["mc"] = {"cfg": "MC_Life", "states": d, "transitions": g}
         if tier == "quick":
-            behs, gs = gen(run, seed, 40, 9, 8)
+            behs, gs = gen(run, seed, 40, 11, 8)
         else:
-            behs, gs = gen(run, seed, 400, 10, 16)
+            behs, gs = gen(run, seed, 400, 12, 16)
         res["gen_states"] = gs
     else:
         behs = only_paths
